@@ -19,7 +19,7 @@ def RULE(tier):
     k = 3 if tier == "quick" else 4
     return (
         "The outbound journal is produced by driving a real logged-on endpoint (both roles): each slot is an application "
-        "message (with / without groups), a session message (Heartbeat, ResendRequest, TestRequest, Logon, Logout), an "
+        "message (with / without groups; bodies rotating over fields like 835=0, 135=5, 235=2 and texts ending in '35=A', which look like a session MsgType field to a byte scanner), a session message (Heartbeat, ResendRequest, TestRequest, Logon, Logout), an "
         "application message the endpoint's should_replay declines, a session-level Reject (FREE kind), a hole (row deleted, "
         f"or numbers skipped with set_seq_num). EXHAUSTIVELY all journals of <= {k} slots over the slot kinds x ALL "
         "(BeginSeqNo, EndSeqNo) with BeginSeqNo in [-1, L+3], EndSeqNo in {0} U [BeginSeqNo-1, L+3], issued one after the "
@@ -79,6 +79,14 @@ class Driver:
         j = ep._journaler
         if kind in ("app", "appg", "declined", "app43n"):
             m = FIXMessage(FMsg.NEWORDERSINGLE, {11: f"c{self.uid}", 55: "SYM", 54: 1, 38: self.uid, 58: ("NOREPLAY please" if kind == "declined" else f"text {self.uid} a=b|c")})
+            # bodies rotate: tags whose number ends in 35 with values that look like session MsgTypes, texts ending in '35=<type>'
+            v = self.uid % 3
+            if v == 1:
+                m.set(835, "0")
+                m.set(135, "5")
+            elif v == 2 and kind != "declined":
+                m.set(58, "see 35=A", replace=True)
+                m.set(235, "2")
             if kind == "app43n":
                 m.set(43, "N")  # an application message sent with an explicit PossDupFlag=N is still replayable
             if kind == "appg":
